@@ -225,7 +225,12 @@ def cuts2(acc, name, part, parts, full):
 
 
 GARBAGE = [b"\x01", b"=", b"8", b"8=", b"8=F", b"8=FI", b"8=FIX", b"\x0110=000\x01", b"\x00\xff\x01=", b"junk junk", b"9=12\x0135=A\x01",
-           b"10=123\x01", b"\n", b"FIX.4.4", b"8=FIX,4.4\x019=5\x01"]
+           b"10=123\x01", b"\n", b"FIX.4.4", b"8=FIX,4.4\x019=5\x01",
+           # long garbage (longer than the frames behind it), and the tail of an aborted frame
+           b"x" * 90, bytes(range(256)) * 2, b"noise \x01" * 40,
+           ref_msg("D", "CLI", "SRV", 7, [(11, "aborted"), (58, "tail of a frame whose head was lost")])[1:],
+           ref_msg("0", "CLI", "SRV", 9)[3:]]
+assert all(MARKER not in g for g in GARBAGE)
 
 
 def garbage_sweep(acc):
@@ -270,7 +275,7 @@ def gen_stream(draw):
     garbage = {}
     if draw(st.integers(0, 3)) == 0:
         for _ in range(draw(st.integers(1, 2))):
-            g = draw(st.one_of(st.sampled_from(GARBAGE), st.binary(min_size=1, max_size=30)))
+            g = draw(st.one_of(st.sampled_from(GARBAGE), st.binary(min_size=1, max_size=30), st.binary(min_size=31, max_size=400)))
             g = g.replace(MARKER, b"8=FIX,")
             garbage[draw(st.integers(0, k))] = g
     return frames, cuts, garbage
